@@ -1045,6 +1045,11 @@ func (c *Ctx) BV2Int(a *Term) *Term {
 	if a.IsConst() {
 		return c.IntConst(a.Val)
 	}
+	if a.Op == OInt2BV {
+		// bv2int(int2bv(x, w)) = x mod 2^w: keeps values that originate from mathematical integers
+		// (vs.BigU(..).Uint64()) in the Int theory instead of a mixed BV/Int encoding
+		return c.Mod(a.Args[0], c.IntConst(new(big.Int).Lsh(big.NewInt(1), uint(a.Sort.W))))
+	}
 	return c.mk(OBV2Int, Int, []*Term{a}, nil, "", 0, 0)
 }
 
